@@ -11,7 +11,7 @@ def sh(cmd, cwd=None):
 if not os.path.isdir(WT):
     r = sh("git -C /repo worktree add --detach %s HEAD" % WT); assert r.returncode == 0, r.stderr
 sh("git checkout -q --detach $(git -C /repo rev-parse HEAD) && git checkout -- . && git clean -fdq", cwd=WT)
-for n in range(1, 13):
+for n in range(1, 21):
     patch = os.path.join(src, "patch%d.diff" % n); demo = os.path.join(src, "demo%d_test.go" % n)
     if not (os.path.exists(patch) and os.path.exists(demo)):
         continue
